@@ -6,8 +6,10 @@ import os
 import sys
 
 REPO = os.path.realpath(os.environ.get("LSPVERIF_REPO", "/repo"))
-PY_PKG = os.path.join(REPO, "packages", "python")
-MODEL_PATH = os.path.join(REPO, "generator", "lsp.json")
+# the Python package and the model under test can be redirected (C06: evolved model + regenerated
+# types.py next to the unchanged runtime files); the generator always comes from REPO
+PY_PKG = os.path.realpath(os.environ.get("LSPVERIF_PYPKG", os.path.join(REPO, "packages", "python")))
+MODEL_PATH = os.path.realpath(os.environ.get("LSPVERIF_MODEL", os.path.join(REPO, "generator", "lsp.json")))
 SCHEMA_PATH = os.path.join(REPO, "generator", "lsp.schema.json")
 
 
